@@ -78,7 +78,8 @@ func c10Build(hier int, toggles []int) (*Dir, map[string][]byte) {
 			cfg.Issuer = alias(parents[i])
 		}
 		if has(1) {
-			cfg.Validity = &refcfg.Validity{Duration: "2y"}
+			// by position: two years, a period of zero length (expired the moment it is issued), a century
+			cfg.Validity = &refcfg.Validity{Duration: []string{"2y", "0d", "36500d"}[i%3]}
 		}
 		if has(2) {
 			// current, not yet valid, and expired by design - by position in the hierarchy
@@ -620,7 +621,7 @@ func init() {
 	register(&engine.Check{
 		ID:          "C10",
 		Level:       "model_checking",
-		Rule:        "4 hierarchies (root; root+sub; 3-tier chain; root+2 subs; keys on P-224, brainpoolP256r1, P-384, brainpoolP384t1 by position) x toggle sets of size <=2 (thorough <=4 and all seven) over {profile, relative validity, absolute validity (current, not yet valid and expired-by-design periods by position), manipulations (version, signature value, key algorithm and key bits of the last entity), imported key, CSR-based leaf, nested directories + explicit aliases; plus a world where two configurations share an artifact file and worlds where every entity carries seven extensions with mixed-case names} x 16 flag sets without generate-all x 3 clock modes (tick per write / one tick per run / the run shares the tick of the last edit before it), 5 foreign files present: run, then run again with the same flags - from the fresh directory and (for the <=1-toggle worlds; all in thorough) after four histories: settled + edit of the root's subject, of the last entity's subject, of its extensions plus touching every config, deletion of its artifact. Second run: empty plan, nothing generated, empty write log, directory identical including mtimes. First run: changed paths = artifact paths of exactly the reported entities, no other path changed or created. The same run;run on the built binary in a native directory for every flag set on the <=1-toggle worlds and a diagonal of the rest; a root (RSA) and a subordinate with configured serials, absolute validity and existing keys: the root is edited (name and key kept), both are re-issued - the subordinate to the same bytes - and the next run under each of the 16 flag sets x 3 clock modes is a no-op; the binary on the 4 plain hierarchies x 16 flag sets with the last entity's artifact being a symbolic link (older than every file) to a key kept in another directory: run, then two more runs that must neither prompt nor change anything; consent: 9 stdin answers on 14 worlds with a pending replacement (the directory named as an absolute path; for y and n also relative, as ./dir/, as . from inside it, and through a symbolic link) (incl. replaced entities that hold a certificate but no private key: request-based, key stripped; and a lost root artifact with generate-missing as the only flag, where what the root issued is replaced along with it) (only `y` replaces, others leave the directory identical and exit 0, no prompt when nothing is replaced). states = worlds, transitions = runs, traces_validated = binary runs",
+		Rule:        "4 hierarchies (root; root+sub; 3-tier chain; root+2 subs; keys on P-224, brainpoolP256r1, P-384, brainpoolP384t1 by position) x toggle sets of size <=2 (thorough <=4 and all seven) over {profile, relative validity (2y, a zero-length period, a century by position), absolute validity (current, not yet valid and expired-by-design periods by position), manipulations (version, signature value, key algorithm and key bits of the last entity), imported key, CSR-based leaf, nested directories + explicit aliases; plus a world where two configurations share an artifact file and worlds where every entity carries seven extensions with mixed-case names} x 16 flag sets without generate-all x 3 clock modes (tick per write / one tick per run / the run shares the tick of the last edit before it), 5 foreign files present: run, then run again with the same flags - from the fresh directory and (for the <=1-toggle worlds; all in thorough) after four histories: settled + edit of the root's subject, of the last entity's subject, of its extensions plus touching every config, deletion of its artifact. Second run: empty plan, nothing generated, empty write log, directory identical including mtimes. First run: changed paths = artifact paths of exactly the reported entities, no other path changed or created. The same run;run on the built binary in a native directory for every flag set on the <=1-toggle worlds and a diagonal of the rest; a root (RSA) and a subordinate with configured serials, absolute validity and existing keys: the root is edited (name and key kept), both are re-issued - the subordinate to the same bytes - and the next run under each of the 16 flag sets x 3 clock modes is a no-op; the binary on the 4 plain hierarchies x 16 flag sets with the last entity's artifact being a symbolic link (older than every file) to a key kept in another directory: run, then two more runs that must neither prompt nor change anything; consent: 9 stdin answers on 14 worlds with a pending replacement (the directory named as an absolute path; for y and n also relative, as ./dir/, as . from inside it, and through a symbolic link) (incl. replaced entities that hold a certificate but no private key: request-based, key stripped; and a lost root artifact with generate-missing as the only flag, where what the root issued is replaced along with it) (only `y` replaces, others leave the directory identical and exit 0, no prompt when nothing is replaced). states = worlds, transitions = runs, traces_validated = binary runs",
 		Bound:       map[string]string{"toggle set size": "quick<=2 thorough<=4 + all"},
 		Assumptions: []string{"answers `y` without newline and ` y ` are accepted by the code; the statement says `y`, so they are not demanded either way"},
 		Budget:      budgets(quickBudget, thoroughBudget),
